@@ -252,7 +252,8 @@ def check_c02(ctx):
             if sum(c["w"]) == 0:
                 continue
             cases.append(dict(c, kind="slb"))
-            cases.append(dict(c, kind="gslb"))
+            if c["n"] <= 3:                      # the gslb harness has three named sub-clusters
+                cases.append(dict(c, kind="gslb"))
     import random
     rnd = random.Random(ctx.seed)
     if len(cases) > (500 if q else 4000):
